@@ -230,6 +230,28 @@ claim(
     "DESIGN.md section 5 / C19",
 )
 
+claim(
+    "C11",
+    "exploration",
+    "D-lattice + A-choice-tree (scripted multi-start)",
+    "bounded-exhaustive lattice over designs/kernels/means/hyper-parameters against a 50-digit reference (LOO by actual refits); exhaustive placement of the scripted random starts",
+    "Designs n in {3,5,8}, d in {1,2} x noise x kernels {SE, RQ, SE+WN, ChangePoint} x means {C,L,Q} x hyper-parameter lattice: marginal likelihood = reference log N(y; m, K+S) (either constant convention), LOO score and "
+    "loo_predictions = actual deletion of each datum in the reference, value-and-gradient variants = same value + Richardson gradient of the 50-digit score. Automatic selection: result inside the bounds for both criteria and both "
+    "optimisers; with bfgs the module-global `random` is scripted so that the starts are placed on {0,1/2,1-}^p exhaustively (multisets and orders as stated in the evidence) and score(result) >= score(centre).",
+    "differential_evolution seeded (only bounds membership claimed); n <= 8; ChangePoint with two kernels; points with cond > 1e10 skipped and counted",
+    "DESIGN.md section 5 / C11",
+)
+claim(
+    "C17",
+    "exploration",
+    "D-lattice",
+    "bounded-exhaustive lattice over model matrices/errors/kernels/means/hyper-parameters against the closed-form linear-Gaussian posterior in 50 digits",
+    "Model matrices (under-, over-, exactly determined; dense, rank-deficient, zero row) x y_err patterns x positions d in {1,2} x kernels x means x hyper-parameter lattice: posterior mean and covariance = closed form, "
+    "mean-only path = full path, covariance symmetric PSD and prior - posterior PSD, evidence = log N(y; Am, AKA^T+S) up to the constant, gradient = Richardson derivative of the reference evidence.",
+    "at most 5 parameters / 5 data, d <= 2; first-order perturbation tolerances derived in the reference (class Pert)",
+    "DESIGN.md section 5 / C17",
+)
+
 ALL = [f"C{i:02d}" for i in range(1, 21)]
 PENDING_REASON = "check under construction in this session (design in DESIGN.md section 5); not yet claimed"
 
